@@ -78,6 +78,9 @@ SCENARIOS = [
 ]
 
 
+PREFIX_CMDS = ["f<", "<<", "i<<esc>", "A a<b<esc>", "i\\\\<esc>", "F<", "i<<<<esc>0", "t<", "A<<esc>", "i\\<<esc>", "rx", "i<=<esc>", ">>", "i\\<esc"]
+
+
 def has_alias(t):
     """does the text contain '<...>' that the code's alias grammar accepts (not preceded by an odd run of backslashes)?"""
     import re
@@ -168,6 +171,13 @@ def run(chk, binary):
             keys = render(parts, ch)
             jobs.append({"args": ["--json", "-m", keys, "-c", "name=cur", "v", "-m", "gg0", "-c", "name=buf", "vG$"], "stdin": text})
             meta.append((mode, text, parts, ch, keys))
+        # the same renderings after an earlier command whose key string holds '<', '>' or backslashes that are not aliases:
+        # what the reader learnt from one key string must not reach the next
+        pre = rng.choice(PREFIX_CMDS)
+        for ch in choices:
+            keys = render(parts, ch)
+            jobs.append({"args": ["--json", "-m", pre, "-m", keys, "-c", "name=cur", "v", "-m", "gg0", "-c", "name=buf", "vG$"], "stdin": text})
+            meta.append((mode + "+prefix", text, [pre] + parts, ch, pre + " | " + keys))
     res = cli_map(binary, jobs)
     groups = {}
     for (mode, text, parts, ch, keys), r in zip(meta, res):
